@@ -157,6 +157,7 @@ Definition fix2_from_rows_nested : bool := true.    (* a nested-table field conv
 Definition fix3_add_empty : bool := true.           (* add_fields accepts an empty, explicitly typed column *)
 Definition fix4_sort_strings : bool := true.        (* sort_by on StringArray / EncodedRaggedArray columns, stable *)
 Definition fix5_empty_dtype : bool := true.         (* an empty int / bool column keeps its declared dtype *)
+Definition fix7_list_empty_dtype : bool := false.    (* a List[int] column without any element keeps int64 (notes/C19.fix-7.diff) *)
 Definition fix6_flat_cells : bool := true.          (* a flat-encoded (strand) field rejects entries that are not one symbol *)
 Inductive fk := FB (k : kind) | FN (ks : list (list Z * kind)).
 Definition schema := list (list Z * fk).
@@ -316,6 +317,8 @@ Definition infer_dt (ds : list dt) : dt := match ds with [] => DF | d :: r => fo
 Definition declared_dt (k : kind) : dt := match k with KInt | KOpt => DI | KBool => DB | _ => DF end.
 Definition num_dt (fx5 : bool) (k : kind) (ds : list dt) : dt :=
   match ds with [] => if fx5 then declared_dt k else DF | _ => infer_dt ds end.
+(* RaggedArray(rows) without any element is float64 on the pinned code whatever the declared element type *)
+Definition list_empty_dt : dt := if fix7_list_empty_dtype then DI else DF.
 Definition bcol_of_cells_gen (fx5 fx6 : bool) (k : kind) (l : list mb) : option bcol :=
   match k with
   | KInt | KOpt | KFloat | KBool =>
@@ -340,7 +343,7 @@ Definition bcol_of_cells_gen (fx5 fx6 : bool) (k : kind) (l : list mb) : option 
       match all_ML l with
       | Some ps =>
           let ne := filter (fun p => negb (match snd p with [] => true | _ => false end)) ps in
-          let d := infer_dt (map fst ne) in
+          let d := match ne with [] => list_empty_dt | _ => infer_dt (map fst ne) end in
           Some (rag_of_rows (RNum d) (map (fun p => map (cast (fst p) d) (snd p)) ps))
       | None => None
       end
@@ -501,7 +504,7 @@ Definition bcol_of_dval (k : kind) (v : dval) : option bcol :=
   | VArr d x => match k with KInt | KOpt | KFloat | KBool => Some (ColNum d x) | _ => None end
   | VStrs ss => bcol_of_cells k (map MS ss)
   | VRows d rs => match k with
-                  | KList => Some (rag_of_rows (RNum (match concat rs with [] => DF | _ => d end)) rs)
+                  | KList => Some (rag_of_rows (RNum (match concat rs with [] => list_empty_dt | _ => d end)) rs)
                   | _ => None
                   end
   end.
